@@ -84,11 +84,13 @@ func cmdFlagCensus(args []string) {
 	hc := exec.Command(cli, "-h")
 	hc.Stdout, hc.Stderr = &hb, &hb
 	hc.Run()
-	var unknownBool []string
+	var unknownBool, unknownValue []string
 	re := regexp.MustCompile(`(?m)^\s+-([A-Za-z][A-Za-z0-9_-]*)( \S+)?\s*$`)
 	for _, m := range re.FindAllStringSubmatch(hb.String(), -1) {
 		if !known[m[1]] && m[2] == "" {
 			unknownBool = append(unknownBool, m[1])
+		} else if !known[m[1]] {
+			unknownValue = append(unknownValue, m[1]) // a switch that takes a value: nothing here knows what to feed it (reported as drift)
 		}
 	}
 	statuses := map[string]bool{}
@@ -132,5 +134,5 @@ func cmdFlagCensus(args []string) {
 	}
 	sort.Strings(sl)
 	ev.WriteJSON(out("statuses.json"), sl)
-	ev.WriteJSON(out("summary.json"), ev.M{"unknown_boolean_flags": unknownBool, "runs": runs})
+	ev.WriteJSON(out("summary.json"), ev.M{"unknown_boolean_flags": unknownBool, "unknown_value_flags": unknownValue, "runs": runs})
 }
